@@ -1,7 +1,8 @@
 /-
   C15 — keyspace (API v2) codec: transparency (round trip, order and range isomorphism), isolation
-  (disjoint keyspaces, clipping of foreign regions), region keys, and the command catalogue.
-  All theorems are about `Model/ApiV2.lean`; the tie to /repo is the differential + the regenerated catalogue.
+  (disjoint keyspaces, clipping of foreign regions), region keys (order, ranges, buckets), the command catalogue,
+  the per-field walker lifted over every catalogue row, and transparency / isolation against an abstract shared store.
+  All theorems are about `Model/ApiV2*.lean`; the tie to /repo is the differential + the regenerated catalogue.
 -/
 import ClientGoVerif.Proofs.ApiV2Store
 import ClientGoVerif.Generated.CodecCatalogue
@@ -807,5 +808,14 @@ theorem decode_regions_spec (ks : Keyspace) (l : List (Bytes × Bytes)) :
         simp [decodeRegions, hd, ih.2 ⟨q, hq', hqe⟩, Except.map]
 
 example : decodeRegions ⟨.txn, 7⟩ [([], [])] = .ok [([], [])] := by rfl
+
+/-- region buckets (`DecodeBucketKeys`): every non-empty bucket key handed to the region cache is the stripped form
+    of an input key that carried THIS keyspace's prefix; foreign or out-of-keyspace boundaries only ever appear as
+    the empty (open) first / last bucket key or are dropped -/
+theorem decode_bucket_keys_sound (ks : Keyspace) (keys out : List Bytes) (h : decodeBucketKeys ks keys = .ok out) :
+    ∀ o ∈ out, o ≠ [] → ∃ key ∈ keys, memDecode key = .ok (encodeKey ks o) :=
+  decodeBucketKeys_sound ks keys out h
+
+example : decodeBucketKeys ⟨.txn, 7⟩ [[], []] = .ok [[], []] := by rfl
 
 end CGV.Props.C15
